@@ -111,6 +111,33 @@ func init() {
 						if !r.OK() || stripVersionLine(string(ib)) != stripVersionLine(gen) {
 							c.Violation("inprocess-differs", "in-process command and binary disagree on the self-configuration\n"+r.Out, nil, nil)
 						}
+						// one process, several builds: the own configuration again, after a stub of itself, after another configuration
+						other := &Cfg{Meta: &Meta{Pkg: P("other"), Imports: []KV{{"container", "example.com/x/container"}, {"runner", "example.com/y/runner"}}, Functions: []KV{{"env", "container.Getenv"}, {"up", "runner.Up"}}},
+							Params: []Param{{"p", `%up("x")%`}}, Services: []Service{{Name: "printer", Constructor: P("runner.NewPrinter"), Getter: P("GetPrinter"), Type: P("*runner.Printer")}, {Name: "s", Value: P("container.Var")}}}
+						os.WriteFile(filepath.Join(w.Dir, "other.yaml"), []byte(other.YAML()), 0o644)
+						for hi, before := range [][]string{
+							nil,
+							{"-i", "internal/gontainer/gontainer.yaml", "-i", "internal/gontainer/gontainer_*.yaml", "-o", filepath.Join(w.Dir, "hist-stub.go"), "--stub"},
+							{"-i", filepath.Join(w.Dir, "other.yaml"), "-o", filepath.Join(w.Dir, "hist-other.go")},
+							{"-i", filepath.Join(w.Dir, "other.yaml"), "-o", filepath.Join(w.Dir, "hist-other.go"), "--stub", "--ignore-missing-params", "--ignore-missing-services"},
+						} {
+							os.Chdir(tree)
+							if before != nil {
+								Tool(DefaultVersion, DefaultBuildInfo, before...)
+							}
+							hp := filepath.Join(w.Dir, "hist.go")
+							os.Remove(hp)
+							hr := Tool(DefaultVersion, DefaultBuildInfo, "-i", "internal/gontainer/gontainer.yaml", "-i", "internal/gontainer/gontainer_*.yaml", "-o", hp)
+							os.Chdir(wd)
+							hb, _ := os.ReadFile(hp)
+							c.Count("generations")
+							c.Count("evaluations_extra")
+							c.Distinct("nontrivial", fmt.Sprintf("history%d", hi))
+							if !hr.OK() || stripVersionLine(string(hb)) != stripVersionLine(gen) {
+								c.Violation("depends-on-earlier-builds", fmt.Sprintf("the self-configuration built in a process that has built something before (history %d: %v) differs from what a fresh process writes: %s\n%s", hi, before, firstDiff(stripVersionLine(gen), stripVersionLine(string(hb))), tailStr(hr.Out, 600)), nil, nil)
+								break
+							}
+						}
 					} else if stripVersionLine(gen) != stripVersionLine(prev) {
 						c.Violation(fmt.Sprintf("gen%d-differs", g), fmt.Sprintf("generation %d differs from generation %d: %s", g, g-1, firstDiff(stripVersionLine(prev), stripVersionLine(gen))), nil, nil)
 					}
